@@ -36,6 +36,13 @@ type huffLine struct {
 type huffTable struct {
 	Lines []huffLine
 	codes []uint32 // assigned prefix codes
+
+	// decoding index: the lines with prefix length l are
+	// order[start[l]:start[l+1]], in table order, and carry the
+	// consecutive codes first[l], first[l]+1, ...
+	first []uint32
+	start []int
+	order []int32
 }
 
 // newHuffTable creates a Huffman table and assigns canonical prefix codes.
@@ -74,11 +81,18 @@ func (t *huffTable) assignCodes() {
 	}
 
 	// assign codes
+	t.first = firstCode
+	t.start = make([]int, maxLen+2)
+	for i := 1; i <= maxLen; i++ {
+		t.start[i+1] = t.start[i] + lenCount[i]
+	}
+	t.order = make([]int32, t.start[maxLen+1])
 	curCode := make([]uint32, maxLen+1)
 	copy(curCode, firstCode)
 	for i, l := range t.Lines {
 		if l.PrefLen > 0 {
 			t.codes[i] = curCode[l.PrefLen]
+			t.order[t.start[l.PrefLen]+int(curCode[l.PrefLen]-firstCode[l.PrefLen])] = int32(i)
 			curCode[l.PrefLen]++
 		}
 	}
@@ -193,8 +207,12 @@ func (t *huffTable) decode(r *huffReader) int64 {
 			r.err = io.ErrUnexpectedEOF
 			return 0
 		}
-		for i, l := range t.Lines {
-			if l.PrefLen == codeLen && t.codes[i] == code {
+		// the codes of one length are consecutive, so the line is found
+		// without scanning the table
+		if codeLen < len(t.first) {
+			k := code - t.first[codeLen]
+			if k < uint32(t.start[codeLen+1]-t.start[codeLen]) {
+				l := t.Lines[t.order[t.start[codeLen]+int(k)]]
 				if l.IsOOB {
 					return oobResult
 				}
